@@ -184,10 +184,10 @@ m("C09-no-permutation", "C09", "tensor.py",
 m("C09-taco-vals-dimension", "C09", "tensor.py",
   "            if modes[i_dimension] == Mode.dense:\n                nnz *= dimensions[mode_ordering[i_dimension]]\n            elif modes[i_dimension] == Mode.compressed:\n                nnz = cffi_indexes[i_dimension][0][nnz]",
   "            if modes[i_dimension] == Mode.dense:\n                nnz *= dimensions[i_dimension]\n            elif modes[i_dimension] == Mode.compressed:\n                nnz = cffi_indexes[i_dimension][0][nnz]", "C09.axis-typing")
-m("C09-no-sorted", "C09", "tensor.py", "            idx = sorted(node.keys())\n", "            idx = list(node.keys())\n", "C09.canonical")
-m("C09-overwrite-duplicates", "C09", "tensor.py", "            node[key] = node.get(key, 0.0) + payload", "            node[key] = payload", "C09.canonical")
+m("C09-no-sorted", "C09", "tensor.py", "            idx = sorted(node.keys())\n", "            idx = list(node.keys())\n", "C09.construction-semantics")
+m("C09-overwrite-duplicates", "C09", "tensor.py", "            node[key] = node.get(key, 0.0) + payload", "            node[key] = payload", "C09.construction-semantics")
 m("C09-validation-crd-range", "C09", "compile/_cffi_ownership.py",
-  "            if not all(0 <= x < dimensions[mode_ordering[i_level]] for x in crd):", "            if not all(0 <= x for x in crd):", "C09.validation")
+  "            if not all(0 <= x < dimensions[mode_ordering[i_level]] for x in crd):", "            if not all(0 <= x for x in crd):", "C09.structure-semantics")
 m("C09-setstate-swapped", "C09", "tensor.py",
   "            dimensions=state[\"dimensions\"],\n            mode_ordering=state[\"mode_ordering\"],", "            dimensions=state[\"mode_ordering\"],\n            mode_ordering=state[\"dimensions\"],", "C09.")
 # ---------------------------------------------------------------- C10
